@@ -35,6 +35,7 @@ type Stats struct {
 	Yields      int      `json:"yields"`
 	SyncImports int      `json:"sync_imports_rewritten"`
 	Dials       int      `json:"dial_calls_redirected"`
+	Selects     int      `json:"selects_made_deterministic"`
 	GoTargets   []string `json:"go_targets"`
 	Skipped     []string `json:"skipped_files"`
 	Mode        string   `json:"mode"`
@@ -309,6 +310,34 @@ func rewrite(j *fileJob, targets map[string]bool, opt Options, st *Stats) ([]byt
 				p := j.fset.Position(fl.Pos())
 				addIns(fl.Body.Lbrace+1, fmt.Sprintf(" defer simhook.Recover(%q); ", fmt.Sprintf("func@%s:%d", j.rel, p.Line)), 0)
 				usesHook = true
+			}
+		case *ast.SelectStmt:
+			// A select with several ready cases is decided by the runtime's own
+			// randomness, which no tape controls. Poll the cases once in textual
+			// order (a legal choice) before blocking on the original statement.
+			var clauses []*ast.CommClause
+			hasDefault := false
+			for _, c := range x.Body.List {
+				cc := c.(*ast.CommClause)
+				if cc.Comm == nil {
+					hasDefault = true
+				}
+				clauses = append(clauses, cc)
+			}
+			if !hasDefault && len(clauses) >= 2 {
+				var pre strings.Builder
+				closing := ""
+				for _, cc := range clauses {
+					a := j.fset.Position(cc.Pos()).Offset
+					b := j.fset.Position(cc.End()).Offset
+					pre.WriteString("select { " + string(j.src[a:b]) + "\ndefault: ")
+					closing += " }"
+				}
+				line := j.fset.Position(x.Pos()).Line
+				pre.WriteString(fmt.Sprintf("\n//line %s:%d\n", j.path, line))
+				addIns(x.Pos(), pre.String(), 0)
+				addIns(x.End(), closing, 0)
+				st.Selects++
 			}
 		case *ast.BlockStmt:
 			instrList(x.List)
